@@ -83,9 +83,22 @@ func runC(pl CPlan) (res vfx.Result) {
 	var wg sync.WaitGroup
 	var mu sync.Mutex
 	busy := make([]bool, n) // a lifecycle call is in flight on that node
+	var finished []int      // leavers whose goroutine is done; the bookkeeping happens on this goroutine (race detector builds)
+	applyFinished := func() {
+		mu.Lock()
+		defer mu.Unlock()
+		for _, i := range finished {
+			nodes[i].Running = false
+			c.Net.Remove(nodes[i].EP)
+			nodes[i].Left = false // the name may be restarted later
+			busy[i] = false
+		}
+		finished = nil
+	}
 	ei := 0
 	checks := 0
 	for now := 0; now <= pl.DurMs; now += 500 {
+		applyFinished()
 		for ei < len(pl.Events) && pl.Events[ei].AtMs <= now {
 			e := pl.Events[ei]
 			ei++
@@ -141,11 +154,8 @@ func runC(pl CPlan) (res vfx.Result) {
 						_ = nd.M.Leave(2 * time.Second)
 						time.Sleep(300 * time.Millisecond)
 						_ = nd.M.Shutdown()
-						nd.Running = false
-						c.Net.Remove(nd.EP)
-						nd.Left = false // the name may be restarted later
 						mu.Lock()
-						busy[i] = false
+						finished = append(finished, i)
 						mu.Unlock()
 					}(e.Node, nd)
 				}
@@ -163,6 +173,7 @@ func runC(pl CPlan) (res vfx.Result) {
 		}
 		time.Sleep(500 * time.Millisecond)
 		c.Wait() // quiescent: nobody is in the middle of a state change
+		applyFinished()
 		for _, nd := range nodes {
 			if nd.Running {
 				if err := cluster.CheckEventLog(nd.M, nd.Rec, fmt.Sprintf("%s at %v", nd.Name(), c.Net.Now())); err != nil {
